@@ -98,9 +98,10 @@ check("C01", "Lean 4 theorems over a hand model of the whole hkl->angles pipelin
 check("C02", "Lean 4 theorems (pass-through of constrained axes through every dispatcher branch, tidy-up, read-back filter) + pipeline correspondence",
       "Proved for ALL modes (C02.getPosition_honours_axes): every element returned by get_position carries each constrained sample/detector axis at exactly the requested value — through all 23 "
       "dispatcher branches (passthrough_*), through the degenerate tidy-up (tidy_preserves_constrained) — and passed the read-back filter for the reference / qaz / naz constraint (filter_sound). "
+      "The bisect relations are exact for every tuple of the three bisect branches (Props/C02Bisect.lean: omegaBisect_relation at the constrained omega, muBisect_relation / etaBisect_relation for some omega; the +-90 deg shortcut is part of the statement). "
       "Correspondence over all modes incl. the two degenerate 4-circle families with the rewritten axis constrained / free / constrained to exactly 0; the oracle evaluates every constraint "
       "as the user stated it (geometric pseudo-angles, bisect relations) on every returned element.",
-      "Lean kernel; standard axioms; PARTIAL: the bisect/omega relations are not proved (correspondence + oracle); pseudo-angle constraints hold within the filter's 1e-7 deg; hand model tied by sampled correspondence.",
+      "Lean kernel; standard axioms; PARTIAL: the bisect relations are proved at branch level (their survival through tidy-up and degree conversion is by correspondence + oracle); pseudo-angle constraints hold within the filter's 1e-7 deg; hand model tied by sampled correspondence.",
       "DESIGN.md §6 C02")
 
 check("C03", "Lean 4 theorems (root enumeration complete, detector-layer completeness, all-or-nothing) + candidate-level correspondence + round-trip oracle",
